@@ -74,7 +74,17 @@ def catalog(sc, use_err=True, use_bkg=True, detcat=None, order=None, relabel=Non
     seg = sc['segm'].copy()
     if relabel:
         seg = np.vectorize(lambda x: relabel.get(int(x), 0))(seg)
-    segm = SegmentationImage(seg.astype(np.int32))
+    seg = seg.astype(np.int32)
+    free = np.argwhere(seg == 0)
+    if len(free) and (int(seg.sum()) + len(free)) % 2:
+        # the map arrives from an in-place operation of the caller (a label has just been removed): its lazily evaluated attributes
+        # are not cached yet when the catalog reads them in its own order
+        r_, c_ = free[len(free) // 2]
+        seg = seg.copy(); seg[r_, c_] = int(seg.max()) + 5
+        segm = SegmentationImage(seg)
+        segm.remove_label(int(seg.max()))
+    else:
+        segm = SegmentationImage(seg)
     cat = SourceCatalog(d, segm, convolved_data=cv, error=sc['err'].astype(float) if use_err else None, mask=m,
                         background=sc['bkg'].astype(float) if use_bkg else None, detection_cat=detcat, localbkg_width=lbw)
     if order is not None:
@@ -124,7 +134,7 @@ def canon_rows(rows, bylabel=None):
     for r in rows:
         r2 = dict(r)
         if bylabel:
-            r2['label'] = bylabel[r['label']]
+            r2['label'] = bylabel.get(r['label'], -1000 - r['label'])      # a label the map does not carry stays recognisable (and mismatches)
         out.append(json.dumps(r2, sort_keys=True))
     return sorted(out)
 
